@@ -46,6 +46,12 @@ type c44Row struct {
 	A    map[string]string `json:"a"`
 	B    map[string]string `json:"b"`
 	Diff []c44Change       `json:"diff"`
+	Opts []c44Opts         `json:"opts"` // the DiffTreeOptions (rename detection on) the spec wants this pair run with
+}
+type c44Opts struct {
+	Limit int  `json:"limit"`
+	Exact bool `json:"exact"`
+	Score int  `json:"score"`
 }
 type c44Out struct {
 	Fp string `json:"fp"`
@@ -463,15 +469,18 @@ func c44(args []string) error {
 			compare(l.name, row, got)
 		}
 		// L5 rename detection on: recorded for TLC (batch trace validation)
-		chs, err := object.DiffTreeWithOptions(ctx, ta.tree, tb.tree, object.DefaultDiffTreeOptions)
-		if err != nil {
-			fail("DiffTree:renames", row, err)
-		} else {
+		for _, o := range row.Opts {
+			opts := &object.DiffTreeOptions{DetectRenames: true, RenameScore: uint(o.Score), RenameLimit: uint(o.Limit), OnlyExactRenames: o.Exact}
+			chs, err := object.DiffTreeWithOptions(ctx, ta.tree, tb.tree, opts)
+			if err != nil {
+				fail("DiffTree:renames", row, err)
+				continue
+			}
 			out := fromObject(chs)
 			if out == nil {
 				out = []c44Out{}
 			}
-			b, _ := json.Marshal(map[string]any{"a": row.A, "b": row.B, "out": out})
+			b, _ := json.Marshal(map[string]any{"a": row.A, "b": row.B, "o": o, "out": out})
 			rw.Write(b)
 			rw.WriteByte('\n')
 			renameRecs++
